@@ -116,11 +116,21 @@ std::string apply(const std::string& in, const DOp& op, std::string& note) {
             if (op.kind == D_DEEP) {
                 static const size_t depth[] = {100, 5000, 100000, 400000, 1000000};
                 size_t d = r.pick(depth);
-                bool indef = r.coin();
-                member += std::string(d, indef ? (char)0x9f : (char)0x81);
+                unsigned shape = (unsigned)r.below(5);   // what the nesting is made of
+                static const char* SH[] = {"indefinite arrays", "definite arrays", "tags", "maps (as values)", "mixed"};
+                std::string close;
+                for (size_t i = 0; i < d; i++) {
+                    unsigned k = shape == 4 ? (unsigned)r.below(4) : shape;
+                    switch (k) {
+                        case 0: member += (char)0x9f; close += (char)0xff; break;
+                        case 1: member += (char)0x81; break;
+                        case 2: member += (char)(0xc0 + r.below(24)); break;
+                        default: member += (char)0xa1; member += (char)0x00; break;
+                    }
+                }
                 member += (char)0x00;
-                if (indef) member += std::string(d, (char)0xff);
-                note = std::string(indef ? "indefinite" : "definite") + " nesting depth " + std::to_string(d) + " in map@" + std::to_string(off);
+                member += std::string(close.rbegin(), close.rend());
+                note = std::string(SH[shape]) + " nested " + std::to_string(d) + " deep in map@" + std::to_string(off);
             } else if (op.kind == D_HUGELEN) {
                 uint64_t len = r.pick(std::vector<uint64_t>{0xffffffffffffffffULL, 0x8000000000000000ULL, 0x100000000ULL, 0xffffffffULL, 0x40000000ULL, 0x4000000ULL});
                 uint8_t major = r.coin() ? 2 : 3;
